@@ -621,3 +621,89 @@ func decodeSuffix(b []byte, opt Options, depth int) (*gen.Node, int, error) {
 	}
 	return nil, 0, errf("unknown type code %d", t)
 }
+
+// Marks returns the offsets (into b, which must be Encode(nil, n)) of all structural
+// bytes: type bytes, varints (sizes and integer bodies), NUL terminators and table
+// entries. Payload bytes of bytes/string/bin/float values are not structural.
+func Marks(b []byte, n *gen.Node) []int {
+	var out []int
+	marks(b, 0, len(b), n, &out)
+	return out
+}
+
+func marks(b []byte, lo, hi int, n *gen.Node, out *[]int) {
+	add := func(from, to int) {
+		for i := from; i < to; i++ {
+			*out = append(*out, i)
+		}
+	}
+	vl := func(end int) int { // length of the varint ending at b[end-1]
+		switch b[end-1] {
+		case 0xfd:
+			return 3
+		case 0xfe:
+			return 5
+		case 0xff:
+			return 9
+		}
+		return 1
+	}
+	switch n.Kind {
+	case gen.KBool, gen.KByte, gen.KFloat32, gen.KFloat64, gen.KBin64, gen.KBin128, gen.KBin256:
+		add(hi-1, hi)
+	case gen.KInt16, gen.KInt32, gen.KInt64, gen.KUint16, gen.KUint32, gen.KUint64:
+		add(lo, hi)
+	case gen.KBytes:
+		add(hi-1-vl(hi-1), hi)
+	case gen.KString:
+		add(hi-1-vl(hi-1)-1, hi)
+	case gen.KStruct:
+		v := vl(hi - 1)
+		add(hi-1-v, hi)
+		end := hi - 1 - v
+		for i := len(n.Elems) - 1; i >= 0; i-- {
+			sz := Size(n.Elems[i])
+			marks(b, end-sz, end, n.Elems[i], out)
+			end -= sz
+		}
+	case gen.KList:
+		v1 := vl(hi - 1)
+		v2 := vl(hi - 1 - v1)
+		tend := hi - 1 - v1 - v2
+		d := 0
+		for _, e := range n.Elems {
+			d += Size(e)
+		}
+		tstart := lo + d
+		add(tstart, hi)
+		_ = tend
+		p := lo
+		for _, e := range n.Elems {
+			sz := Size(e)
+			marks(b, p, p+sz, e, out)
+			p += sz
+		}
+	case gen.KMessage:
+		d := 0
+		for _, f := range n.Fields {
+			d += Size(f.V)
+		}
+		add(lo+d, hi)
+		p := lo
+		for _, f := range n.Fields {
+			sz := Size(f.V)
+			marks(b, p, p+sz, f.V, out)
+			p += sz
+		}
+	}
+}
+
+// RawContainer assembles a list/message with arbitrary (possibly lying) trailer fields.
+// data and table are copied verbatim; dataSize/tableSize are the declared sizes.
+func RawContainer(typ byte, data, table []byte, dataSize, tableSize uint64) []byte {
+	out := append([]byte(nil), data...)
+	out = append(out, table...)
+	out = putVarint(out, dataSize)
+	out = putVarint(out, tableSize)
+	return append(out, typ)
+}
